@@ -108,9 +108,20 @@ func evmWorld(n int) (sdk.Context, sdk.KVStore, []evmStored) {
 }
 
 func c08Verify(ack bool) {
+	if c08VerifyN(ack, false) == nil {
+		rt.Reach("accepted")
+	} else {
+		rt.Reach("rejected")
+	}
+}
+
+func c08VerifyN(ack bool, twoStorageEntries bool) error {
 	rt.Opt("max-enum-40")
-	if rt.Tier() == 0 {
+	if rt.Tier() == 0 || twoStorageEntries {
 		rt.Opt("decode-max-1") // proof lists of length 0..1 (thorough: 0..2)
+	}
+	if twoStorageEntries {
+		rt.Opt("decode-max-at:.StorageProof=2") // ... except the list of storage entries: exactly two (assumed below)
 	}
 	ctx, store, stored := evmWorld(2)
 	cs := c08Client(clienttypes.Height{RevisionNumber: 0, RevisionHeight: rt.U64("head.height")}, rt.Bytes("contractAddress"))
@@ -136,6 +147,13 @@ func c08Verify(ack bool) {
 		}
 	}
 	var p Proof
+	if twoStorageEntries {
+		if proofBz == nil || json.Unmarshal(proofBz, &p) != nil {
+			return nil
+		}
+		rt.Assume(len(p.StorageProof) == 2)
+		p = Proof{}
+	}
 	want := h.RevisionHeight <= head && head-h.RevisionHeight >= cs.GetDelayBlock() && found && proofBz != nil && json.Unmarshal(proofBz, &p) == nil &&
 		specAccept(root, cs.ContractAddress, p, pathKey, value)
 
@@ -146,16 +164,21 @@ func c08Verify(ack bool) {
 		err = cs.VerifyPacketCommitment(ctx, store, rt.Codec(), h, proofBz, src, dst, seq, value)
 	}
 	if err == nil {
-		rt.Reach("accepted")
-	} else {
-		rt.Reach("rejected")
-	}
-	if err == nil {
 		rt.Assert("P1-accepted-only-if-the-property-allows", want)
 	} else {
 		rt.Assert("P2-rejected-only-if-the-property-forbids", !want)
 	}
+	return err
 }
 
 func VerifC08Commitment() { c08Verify(false) }
 func VerifC08Ack()        { c08Verify(true) }
+
+// VerifC08TwoStorageEntries: the same statement for proofs that carry two storage entries (every other list 0..1):
+// "exactly one storage proof, for the expected slot" must refuse them whichever entry names the slot.
+func VerifC08TwoStorageEntries() {
+	// no acceptance witness here: a proof with two storage entries is never acceptable
+	if c08VerifyN(true, true) != nil {
+		rt.Reach("two-entries-rejected")
+	}
+}
